@@ -293,23 +293,6 @@ func (p *pinner) doPinRecursive(ctx context.Context, c cid.Cid, fetch bool, name
 	p.lock.Lock()
 	defer p.lock.Unlock()
 
-	found, err := p.cidRIndex.HasAny(ctx, cidKey)
-	if err != nil {
-		return err
-	}
-	// Do not return immediately! Just remove the recursive pins for the current CID.
-	// This allows the process to continue and the pin to be re-added with a new name.
-	//
-	// TODO: remove this to support multiple pins per CID
-	if found {
-		_, err = p.removePinsForCid(ctx, c, ipfspinner.Recursive)
-		if err != nil {
-			return err
-		}
-	}
-
-	dirtyBefore := p.dirty
-
 	if fetch {
 		// temporary unlock to fetch the entire graph
 		p.lock.Unlock()
@@ -318,7 +301,7 @@ func (p *pinner) doPinRecursive(ctx context.Context, c cid.Cid, fetch bool, name
 		if p.pinnedProvider != nil {
 			opts = append(opts, merkledag.WithProvider(p.pinnedProvider))
 		}
-		err = merkledag.FetchGraph(ctx, c, p.dserv, opts...)
+		err := merkledag.FetchGraph(ctx, c, p.dserv, opts...)
 		p.lock.Lock()
 		if err != nil {
 			return err
@@ -326,19 +309,24 @@ func (p *pinner) doPinRecursive(ctx context.Context, c cid.Cid, fetch bool, name
 	}
 
 	// If autosyncing, sync dag service before making any change to pins
-	err = p.flushDagService(ctx, false)
+	err := p.flushDagService(ctx, false)
 	if err != nil {
 		return err
 	}
 
-	// Only look again if something has changed.
-	if p.dirty != dirtyBefore {
-		found, err := p.cidRIndex.HasAny(ctx, cidKey)
+	// Existing recursive pins for this CID are removed only now that the graph is
+	// known to be complete: a failed fetch must leave the existing pin in place.
+	// Do not return when one is found: the pin is re-added with the new name.
+	//
+	// TODO: remove this to support multiple pins per CID
+	found, err := p.cidRIndex.HasAny(ctx, cidKey)
+	if err != nil {
+		return err
+	}
+	if found {
+		_, err = p.removePinsForCid(ctx, c, ipfspinner.Recursive)
 		if err != nil {
 			return err
-		}
-		if found {
-			return nil
 		}
 	}
 
